@@ -28,6 +28,8 @@ func main() {
 	known := fs.Int("known", 0, "search: number of additional rounds of the recorded in-place-on-shared-input scenario")
 	from := fs.Int("from", 0, "worker: first round")
 	wit := fs.String("w", "", "replay: witness")
+	stride := fs.Int("stride", 1, "worker: round stride")
+	workers := fs.Int("workers", 4, "search: number of worker processes")
 	norace := fs.Bool("norace", false, "search: the binary was built without -race")
 	_ = fs.Parse(os.Args[2:])
 	switch os.Args[1] {
@@ -36,9 +38,9 @@ func main() {
 	case "corr":
 		os.Exit(cmdCorr(*repo, *seed, *n))
 	case "search":
-		os.Exit(cmdSearch(*repo, *seed, *n, *known, *norace))
+		os.Exit(cmdSearch(*repo, *seed, *n, *known, *norace, *workers))
 	case "worker":
-		os.Exit(cmdWorker(*repo, *seed, *from, *n, *known))
+		os.Exit(cmdWorker(*repo, *seed, *from, *n, *known, *stride))
 	case "replay":
 		os.Exit(cmdReplay(*repo, *wit, *norace))
 	}
